@@ -785,11 +785,16 @@ func main() {
 	n := flag.Int("n", 100, "cases")
 	seed := flag.Uint64("seed", 1, "seed")
 	mode := flag.String("mode", "mixed", "seq | conc | mixed")
+	only := flag.Int("only", -1, "emit only the case with this index (replay)")
 	flag.Parse()
 	enc := json.NewEncoder(os.Stdout)
 	for i := 0; i < *n; i++ {
+		if *only >= 0 && i != *only {
+			continue
+		}
 		conc := *mode == "conc" || (*mode == "mixed" && i%2 == 1)
 		coq, nt, key, sample, tags := runCase(*seed*1000003+uint64(i)*7919, conc)
+		sample["replay_args"] = fmt.Sprintf("-n %d -seed %d -mode %s -only %d", i+1, *seed, *mode, i)
 		_ = enc.Encode(line{Coq: coq, NT: nt, Key: key, Sample: sample, Tags: tags})
 	}
 }
